@@ -749,6 +749,19 @@ def render_bound(fam, n):
         first = ", ".join(["1"] * np_ + (["+ 2", "3"] if v else []))
         second = ", ".join([("" if e else "1")] * na)
         return "#define F(%s) %s\nF(%s) F(%s)\n" % (", ".join(params), text, first, second), ["-E"]
+    if fam == "attr":
+        pos, r = n % 9, n // 9
+        syn, r = r % 2, r // 2
+        a, r = r % 4, r // 4
+        pre, r = r % 4, r // 4
+        sp, nm = r % 2, r // 2
+        name = attr_names()[nm]
+        if sp:
+            name = "__%s__" % name
+        spec = ["", "gnu::", "__gnu__::"][pre] + name + ["", "(8)", "(3)", "()"][a]
+        at = "[[%s]]" % spec if syn == 0 else "__attribute__((%s))" % spec
+        return ["%s int x;", "int x %s;", "struct s { %s char c; int d; };", "struct %s s { char c; };", "int f(void) { %s; return 0; }",
+                "int f(void) { %s int y = 0; return y; }", "int f(%s int p);", "enum e { A %s = 1 };", "int * %s p;"][pos] % at + "\n", []
     if fam == "objhash":
         body = OBJHASH_BODIES[n // 8]
         use = ["M", "M M", "ID(M)", "XSTR(M)", "ID(ID(M) M)", "STR(M)", "M(1)", "ID(\nM\n)"][n % 8]
@@ -811,6 +824,12 @@ GUARDS = [
 # Bounds.tla's NObjHash must equal the length of this list and HashHash the indices (1-based) of the bodies with ##
 OBJHASH_BODIES = ["#", "# x", "# see x", "x #", "# #", "# define", "#x #y", "( # )", "##", "x ## y", "## x"]
 
+def attr_names():
+    """attribute (and prefix) names attr.c compares against, read from the source at run time, plus one unknown name"""
+    src = open(os.path.join(vlib.REPO, "attr.c")).read()
+    return sorted(set(re.findall(r'strcmp\(name, "(\w+)"\)', src))) + ["frobnicate"]
+
+
 DEPTH_FAMS = {"parens", "blocks", "declparens", "pointers", "unaryneg", "dims", "elseif", "structnest", "casts", "sizeofs", "ternary",
               "lognot", "subscripts", "calls", "ifnest"}
 
@@ -824,6 +843,8 @@ def part_bounds(ctx, bins, models):
     cases = json.loads(r.vcases[0])["cases"]
     if sum(1 for c in cases if c["fam"] == "objhash") != 8 * len(OBJHASH_BODIES):
         raise vlib.MachineryError("Bounds.tla NObjHash differs from the harness' list of replacement lists")
+    if max(c["n"] for c in cases if c["fam"] == "attr") // 576 + 1 != len(attr_names()):
+        raise vlib.MachineryError("Bounds.tla NAttrName (%d) differs from the names found in attr.c (%s)" % (max(c["n"] for c in cases if c["fam"] == "attr") // 576 + 1, attr_names()))
     if sum(1 for c in cases if c["fam"] == "guard") != len(GUARDS):
         raise vlib.MachineryError("Bounds.tla NGuard differs from the harness' guard probe list")
 
